@@ -416,6 +416,7 @@ def build_core(repo, external=(), canary=None, with_witness=True):
     b.add(read("spec/core_spec.rs"))
     b.add(read("spec/core_bounds.rs"))
     b.add(read("spec/core_laws.rs"))
+    b.add(read("spec/core_named.rs"))
     b.add(read("spec/eval_spec.rs"))
 
     ss = Woven(db_rs, "fn", "signed_shift", log)
